@@ -45,7 +45,7 @@ fn idref(u: &mut Unstructured, own: u8, n: u8) -> Result<IdRef> {
         8 | 9 => IdRef::Ancestor(own, u.int_in_range(1..=8u8)?),
         10 => IdRef::Base(own),
         11 => IdRef::SnapVersion(own),
-        12 => IdRef::Fresh(u.int_in_range(0..=5u32)?),
+        12 => IdRef::Fresh(u.int_in_range(0..=7u32)?),
         13 => IdRef::Latest(other(u8::arbitrary(u)?)),
         14 => IdRef::Ancestor(other(u8::arbitrary(u)?), u.int_in_range(1..=5u8)?),
         _ => IdRef::Base(other(u8::arbitrary(u)?)),
